@@ -80,3 +80,31 @@ Definition batch_is_removed (b : batch) (k : key) : bool := smem k (b_removed b)
 
 (** result classes of the persister API: nil / ErrKeyNotFound / ErrDBIsClosed / anything else *)
 Inductive rclass : Type := ROk | RNotFound | RClosed | ROther.
+
+(** ---- RangeKeys with a handler that may stop the iteration (C09) ----
+    goleveldb's iterator delivers the pairs in ascending key order (bytes.Compare): the association
+    list standing for the directory is sorted by key before it is walked. *)
+Fixpoint kinsert (x : key * bytes) (l : list (key * bytes)) : list (key * bytes) :=
+  match l with
+  | [] => [x]
+  | y :: r => match bcmp (fst x) (fst y) with Gt => y :: kinsert x r | _ => x :: l end
+  end.
+Definition ksort (l : list (key * bytes)) : list (key * bytes) := fold_right kinsert [] l.
+
+(** the loop `for iterator.Next() { if !handler(key, value) { break } }` over the pairs [l], for a handler
+    with a state of its own (a Go closure) *)
+Fixpoint iter_with {St : Type} (h : St -> key * bytes -> St * bool) (st : St) (l : list (key * bytes)) : St :=
+  match l with
+  | [] => st
+  | p :: r => let (st', go) := h st p in if go then iter_with h st' r else st'
+  end.
+
+(** the handler of the harness: it remembers every pair it is given (newest first) and answers
+    `number of calls so far < n`: n = 0 and n = 1 both ask to stop at the first pair *)
+Definition visits := list (key * bytes).
+Definition stop_handler (n : nat) (st : visits) (p : key * bytes) : visits * bool :=
+  let st' := p :: st in (st', Nat.ltb (length st') n).
+
+(** how many pairs a persister holding [len] pairs delivers to [stop_handler n] after [c] earlier calls *)
+Definition expected_run (n c len : nat) : nat :=
+  match len with O => O | _ => Nat.min len (Nat.max 1 (n - c)) end.
